@@ -64,12 +64,12 @@ NOINL uint32_t K_can_timeout(uint32_t i) { return K_kind[i] != KW_NONE && K_kind
 NOINL uint32_t K_timeout_event(uint32_t i)
 {
     if (K_kind[i] == KW_NONE || !K_finite[i]) return 0;
+    if (K_kind[i] == KW_SPIN || K_kind[i] == KW_RELOCK) return 0;       // already woken (only waiting for its lock): its sleep is over, no deadline any more
     K_flag[i] = KF_TIMEDOUT;
     if (K_kind[i] == KW_CV) {                          // must still re-acquire its lock
         if (K_mtx[i]) K_want_mutex(i, K_mtx[i]); else K_kind[i] = KW_SPIN;
-        K_try_unblock(i); return K_kind[i] == KW_NONE;
+        return 1;                                      // (the lock itself is taken when the thread is next picked: K_try_unblock)
     }
-    if (K_kind[i] == KW_SPIN || K_kind[i] == KW_RELOCK) return 0;
     K_kind[i] = KW_NONE; return 1;
 }
 // ---- mutex
